@@ -230,9 +230,11 @@ class Concrete:
         S = self.S
         for label in ("A", "B", "dflt"):
             got = set()
+            ref = None
             if self.can("file", label) and not (label == "dflt" and S.default is None and self.kind != "hook"):
                 try:
                     got.add(nrepr(S.validator(self.py_value(label))))
+                    ref = set(got)
                 except Exception as e:   # noqa
                     if label != "dflt":
                         raise Unusable("validator rejects the valid pick %s: %r" % (label, e))
@@ -245,6 +247,10 @@ class Concrete:
                     if label != "dflt":
                         raise Unusable("command line rejects the valid pick %s: %r" % (label, e))
                     self.vals["dflt"] = (self.vals["dflt"][0], None)
+            if label != "dflt" and ref and got != ref:
+                # the command-line spelling of the pick does not produce the value the pick stands for: the value a
+                # configuration file gives is the reference, the cases that spell it on the command line will show it
+                got = ref
             self.norm[label] = got
         d = S().get()
         if self.name == "default_proc_name":
